@@ -376,6 +376,10 @@ def point_tables(w, pe):
                 tab[((), c)] = Cx.of(v if not hasattr(v, "_value") else v._value)
             except (ZeroDivisionError, OverflowError):
                 tab[((), c)] = None
+            except ValueError as exc:
+                if "math domain error" not in str(exc):
+                    raise RealCodeError(f"e(x, mapping, component={c}) raised ValueError: {exc}") from exc
+                tab[((), c)] = None  # e.g. sqrt of a negative number: no real value at this point
             except Exception as exc:  # noqa: BLE001 - the system under test failed
                 raise RealCodeError(f"e(x, mapping, component={c}) raised {type(exc).__name__}: {exc}") from exc
         tabs.append(tab)
